@@ -1,10 +1,12 @@
 package sim
 
 import (
-	"crypto/ed25519"
+	"context"
 	"crypto/ecdsa"
+	"crypto/ed25519"
 	"errors"
 	"fmt"
+	"io"
 
 	cose "github.com/veraison/go-cose"
 
@@ -147,7 +149,7 @@ func (r *Run) c20Signer(t *tape.Tape, kind string, log *[]string, tag string) *c
 		// an ECDSA one unparsable ASN.1, i.e. an error
 		c.isErr = func() bool { return kind != "hsm.empty" || !isRSAKey }
 		if kind == "hsm.err" || kind == "hsm.bytes+err" {
-			c.inject = ErrHSM
+			c.inject = injected(ErrHSM)
 		}
 	case "entropy.err@k", "entropy.short":
 		// an algorithm that reads entropy most of the time; Ed25519 sometimes
@@ -171,7 +173,7 @@ func (r *Run) c20Signer(t *tape.Tape, kind string, log *[]string, tag string) *c
 		ent := c.ent
 		c.isErr = func() bool { return kind == "entropy.err@k" && ent.Fired }
 		if kind == "entropy.err@k" {
-			c.inject = ErrEntropy
+			c.inject = injected(ErrEntropy)
 		}
 	default:
 		c.key = pickCheapKey(t)
@@ -179,9 +181,9 @@ func (r *Run) c20Signer(t *tape.Tape, kind string, log *[]string, tag string) *c
 		c.spy = &SpySigner{Inner: inner, Alg: inner.Algorithm(), Log: log, Tag: tag}
 		switch kind {
 		case "signer.err":
-			c.spy.Fault, c.inject = "err", ErrSigner
+			c.spy.Fault, c.inject = "err", injected(ErrSigner)
 		case "signer.bytes+err":
-			c.spy.Fault, c.inject = "bytes+err", ErrSigner
+			c.spy.Fault, c.inject = "bytes+err", injected(ErrSigner)
 		case "signer.panic":
 			c.spy.Fault, c.inject = "panic", ErrSeamPanic
 		case "signer.empty":
@@ -222,7 +224,7 @@ func (c *c20Call) made() bool {
 // signature field of any layer (message, COSE_Signature entries,
 // countersignatures under labels 7/11 at any depth) is zero-length and a
 // COSE_Sign carries at least one signature.  Only structural positions are
-// looked at: a header VALUE that happens to look like [h'', {}, h''] is
+// looked at: a header VALUE that happens to look like [h”, {}, h”] is
 // application data.
 func (r *Run) noEmptySignature(what string, b []byte) {
 	it, err := refcbor.ParseOne(b)
@@ -297,6 +299,22 @@ func scenarioC20(r *Run) {
 	var vec [c20MaxN]int
 	for i := 0; i < c20MaxN; i++ {
 		vec[i] = t.Choose(kindsN, "c20.fault")
+	}
+	// which error VALUE the failing seams of this run report
+	InjectedAs = nil
+	switch t.Pick([]int{6, 2, 1, 1, 1}, "c20.errvalue") {
+	case 1:
+		InjectedAs = io.EOF
+	case 2:
+		InjectedAs = io.ErrUnexpectedEOF
+	case 3:
+		InjectedAs = context.DeadlineExceeded
+	case 4:
+		InjectedAs = cose.ErrVerification // a seam may even fail with one of the library's own sentinels
+	}
+	defer func() { InjectedAs = nil }()
+	if InjectedAs != nil {
+		r.Probe("seams-fail-with-" + InjectedAs.Error())
 	}
 	if !e.multi {
 		n = 1
@@ -478,7 +496,10 @@ func c20Sign(r *Run, t *tape.Tape, e c20Entry, n int, vec []int) {
 			r.Fail("sign-error-swallowed"+sig+"/"+c.kind, "call %d failed (%s) but %s returned nil", firstErr, c.kind, e.name)
 			return
 		}
-		if c.inject != nil && !errors.Is(err, c.inject) {
+		// (an entropy reader that ends with io.EOF after some bytes is reported
+		// as io.ErrUnexpectedEOF by io.ReadFull inside Go's crypto packages)
+		eofOK := c.inject == io.EOF && c.ent != nil && errors.Is(err, io.ErrUnexpectedEOF)
+		if c.inject != nil && !errors.Is(err, c.inject) && !eofOK {
 			r.Fail("sign-error-replaced"+sig+"/"+c.kind, "call %d failed with the injected error %v, %s returned %v", firstErr, c.inject, e.name, err)
 		}
 		if len(out) > 0 {
@@ -707,7 +728,7 @@ func c20Verify(r *Run, t *tape.Tape, e c20Entry, n int, vec []int) {
 			r.Fail("verifier-error-turned-into-success"+sig, "verifier %d returned an error and %s returned nil (vector %v)", firstErr, e.name, fired)
 			return
 		}
-		if !errors.Is(err, ErrVerifier) && !errors.Is(err, ErrSeamPanic) {
+		if !errors.Is(err, injected(ErrVerifier)) && !errors.Is(err, ErrSeamPanic) {
 			r.Fail("verifier-error-replaced"+sig, "verifier %d returned the injected error, %s returned %v", firstErr, e.name, err)
 		}
 		if envMsg != nil {
